@@ -71,7 +71,10 @@ impl<'a> TypeFn for Eval<'a> {
         }
         for ev in self.nodes {
             match rf.node(&vals, ev)? {
-                Ok(j) => vals.push(j),
+                Ok(j) => {
+                    if std::env::var("VERIF_DEBUG2").is_ok() { eprintln!("{} {} -> {:?}", T::KEY, ev.op, j.iter().map(|(p, x)| format!("{p}={:e}+-{:e}", x.v, x.e)).collect::<Vec<_>>()); }
+                    vals.push(j)
+                }
                 Err(Reject) => return Ok(None),
             }
             let mut ev2 = ev.clone();
@@ -137,11 +140,15 @@ pub fn run(tabs: &Tables, members: &[Member], prog_file: &str, seed: u64, k_tol:
             }
             points += 1;
             for (alpha, list) in &by_alpha {
+                if std::env::var("VERIF_DEBUG").is_ok() {
+                    eprintln!("alpha {alpha:?} point {point:?}");
+                    for x in list { eprintln!("   {} v={:e} e={:e} u={:e}", x.0, x.1, x.2, x.3); }
+                }
                 // compare everyone with the most accurate f64 representative
                 let Some(base) = list.iter().filter(|x| x.3 < 1e-10).min_by(|a, b| a.2.partial_cmp(&b.2).unwrap()) else { continue };
                 for x in list {
                     comparisons += 1;
-                    let tol = k_tol * (x.2 + base.2 + x.3 * x.1.abs() + base.3 * base.1.abs()) + 1e-300;
+                    let tol = k_tol * (x.2 + base.2 + x.3 * x.1.abs() + base.3 * base.1.abs()) + if x.3 > 1e-10 { 1e-30 } else { 1e-300 };
                     let err = (x.1 - base.1).abs();
                     let ratio = err / tol * k_tol;
                     if ratio.is_finite() && ratio > worst { worst = ratio; }
